@@ -16,6 +16,8 @@ reaches the rules in the same shape:
   K7  a, b = x, y                 ->  a = x; b = y       (names only, no
                                       target read on the right-hand side)
   K8  a = b = CONST               ->  a = CONST; b = CONST
+  K10 for x in (a, b): BODY       ->  BODY[a]; BODY[b]  (names only, short
+                                      straight-line body)
   K9  t = delayed(f); t(x)        ->  delayed(f)(x)     (t bound once and
                                       used only as a callee)
 
@@ -391,6 +393,47 @@ class Canon(ast.NodeTransformer):
             node.test = node.test.operand
             node.body, node.orelse = node.orelse, node.body
             self.applied["K3"] += 1
+        return node
+
+    def visit_For(self, node):
+        self.generic_visit(node)
+        # K10  for x in (a, b, c): BODY   ->   BODY[a]; BODY[b]; BODY[c]
+        # (display of plain names, short straight-line body that only uses
+        # x as a load)
+        if isinstance(node.iter, (ast.Tuple, ast.List)) and \
+                1 <= len(node.iter.elts) <= 4 and all(
+                    isinstance(e, ast.Name) for e in node.iter.elts) and \
+                isinstance(node.target, ast.Name) and not node.orelse and \
+                len(node.body) <= 2 and not any(
+                    isinstance(n, (ast.Break, ast.Continue, ast.Return,
+                                   ast.Yield, ast.YieldFrom, ast.For,
+                                   ast.While, ast.If, ast.Try))
+                    for st in node.body for n in ast.walk(st)) and not any(
+                    isinstance(n, ast.Name) and n.id == node.target.id
+                    and isinstance(n.ctx, (ast.Store, ast.Del))
+                    for st in node.body for n in ast.walk(st)):
+            fn = self.cur_fn
+            used_after = fn is not None and any(
+                isinstance(n, ast.Name) and n.id == node.target.id
+                and not any(n is x for x in ast.walk(node))
+                for n in ast.walk(fn))
+            if not used_after:
+                out = []
+                tname = node.target.id
+                for e in node.iter.elts:
+                    class Sub(ast.NodeTransformer):
+                        def visit_Name(self, n, e=e):
+                            if n.id == tname and isinstance(n.ctx, ast.Load):
+                                return _copy(e)
+                            return n
+                    for st in node.body:
+                        st2 = Sub().visit(_copy(st))
+                        ast.copy_location(st2, node)
+                        out.append(st2)
+                for st2 in out:
+                    ast.fix_missing_locations(st2)
+                self.applied["K10"] = self.applied.get("K10", 0) + 1
+                return out
         return node
 
     def visit_Assign(self, node):
